@@ -73,6 +73,10 @@ POOL_QUICK = [
     'FOO_A', 'FOO_B', 'FOO_AB', 'FOO_X_A', 'FOO_X_B', 'FOO_X_AB', 'FOO_X_Y_A', 'FOO_X_Y_B',
     'FOO_X_Y_Z_A', 'FOO_X_Y_Z_B', 'BAR_A', 'BAR_X_A', 'FOOX_A', 'FOO_X_A_B', 'FOO_X_2D', 'FOO_X_y_c',
     'FOO_X', 'BAR_B',
+    # the common prefix re-occurs inside the remainder: as whole words (namespace prefix alone; namespace
+    # prefix + shared word) and as the tail of a word followed by '_' - a name must lose the prefix only once,
+    # at the front, both on the shared-prefix path and on the namespace-prefix fallback path
+    'FOO_A_FOO_B', 'FOO_X_A_FOO_X_B', 'FOO_BUFOO_ROLL', 'FOO_X_BUFOO_X_ROLL',
 ]
 POOL_EXTRA = ['QUX_A', 'FOO_Y_A', 'FOO', 'BAR_X_B']
 # reduced pool for the deepest level
@@ -552,12 +556,6 @@ def seq_attrs(seq, values):
     return vals, bool(h & 1), not bool((h >> 1) % 3 == 0)
 
 
-def masks_for(n, full):
-    if full:
-        return range(2 ** n)
-    return [0] + [1 << i for i in range(n)]
-
-
 def _account(part, case, r, canon):
     viol, must, unspec, outcome = r
     part.add(evaluations=1, traces_validated_against_impl=1, states=1)
@@ -572,7 +570,8 @@ def _account(part, case, r, canon):
 
 def _work_enum(chunk):
     """Part of the generation tree: the node `prefix` and, if `recurse`, everything below it.
-    maskfull: up to this length every private mask is tried (longer: no / one private member);
+    maskfull: up to this length every private mask is tried (longer: no / one private member for
+    sequences over the sub-pool, no private member otherwise);
     fulllen: up to this length children range over the full pool; deeplen: up to this length
     over the sub-pool (for sequences drawn from the sub-pool only)."""
     tier, cfg, prefix, recurse, pool, deep_pool, maskfull, fulllen, deeplen = chunk
@@ -585,7 +584,13 @@ def _work_enum(chunk):
         n = len(seq)
         if n:
             part.add(transitions=1)          # generation step: extension by one identifier
-        for mask in masks_for(n, n <= maskfull):
+        if n <= maskfull:
+            masks = range(2 ** n)
+        elif all(x in idx_deep for x in seq):
+            masks = [0] + [1 << i for i in range(n)]
+        else:
+            masks = [0]                      # beyond maskfull outside the sub-pool: no private member
+        for mask in masks:
             case = {'family': 'enum', 'cfg': cfg, 'name': 'FooE', 'bitfield': bitfield, 'typedef': typedef,
                     'members': [[pool[x], vals[i], bool(mask >> i & 1)] for i, x in enumerate(seq)]}
             r = check_enum(case)
@@ -772,7 +777,7 @@ def run(ctx):
     deeplen = 5 if thorough else 4  # children over the sub-pool up to this length
     ctx.set(rule='ENUM: every sequence of distinct member identifiers of length 0..%d over a %d-identifier pool and of '
                  'length %d..%d over a %d-identifier sub-pool; x every private mask up to length %d, {no, one} private '
-                 'member beyond; each under %d namespace configurations; values/bitfield/declaration form are a fixed '
+                 'member beyond (sub-pool sequences; none for others); each under %d namespace configurations; values/bitfield/declaration form are a fixed '
                  'function of the sequence; plus all value tuples x bitfield x form on fixed names.  CONST: one '
                  'constant per scan: %d integer type spellings x alias depth 0..2 x %d values, untyped ints, strings, '
                  'doubles, booleans, non-header files, underscore names.  Every case runs the whole scanner pipeline '
